@@ -30,6 +30,21 @@ def forced(rng, tier):
             p.append(['op', 1, rng.choice(gates), [qa], 'M', None, 0, 0, [], None])
         p += [['sub', 0, 1], ['list', 0], ['apply', 0], ['list', 0], ['apply', 0], ['list', 0]]
         out.append(p)
+    # the caller keeps the handle of a nested sub-circuit, unrolls, adds a REPEATED block through the handle, unrolls again
+    # (seeded change C06-m5: `apply_modifiers` skipped when nothing was added through the circuit's own `add` since the last call)
+    for i in range(20 if tier == 'quick' else 300):
+        n = rng.choice([2, 3])
+        q = rng.randrange(3)
+        p = [['new', 'f1'], ['new', f'f{rng.choice([1, 2])}'], ['new', f'f{n}']]
+        p.append(['op', 1, rng.choice(gates), [q], 'M', None, 0, 0, [], None])
+        for _ in range(rng.randint(1, 2)):
+            p.append(['op', 2, rng.choice(gates), [rng.randrange(3)], 'M', None, 0, 0, [], None])
+        if rng.random() < 0.5:
+            p.append(['op', 0, rng.choice(gates), [q], 'M', None, 0, 0, [], None])
+        nh = sum(1 for c in p if c[0] in ('op', 'sub'))
+        p += [['sub', 0, 1], ['apply', 0], ['list', 0], ['adopt', nh], ['sub', 3, 2], ['list', 0], ['apply', 0], ['list', 0],
+              ['reps', 0], ['apply', 0], ['list', 0]]
+        out.append(p)
     return out
 
 
